@@ -159,6 +159,16 @@ func genIndexSet(r *RNG, tier string) []int32 {
 // c16Reused: long-lived generic arrays, one per element type, re-initialised by every case.
 var c16Reused = map[string]*array.Array{}
 
+// c16Targets: long-lived objects that every case unmarshals into.
+type c16Target struct {
+	msg   proto.Message
+	tget  func(int32) (uint64, bool)
+	tbase *array.Base
+	gen   *array.Array
+}
+
+var c16Targets = map[string]*c16Target{}
+
 func runC16(ctx *Ctx, idx int) {
 	r := NewRNG(caseSeed(ctx.Seed, "C16", ctx.Tier, idx))
 	k := arrKinds[idx%len(arrKinds)]
@@ -425,6 +435,69 @@ func runC16(ctx *Ctx, idx int) {
 		viol("unmarshal-failed", map[string]interface{}{"panic": fmt.Sprint(pv), "error": fmt.Sprint(err), "stack": stack})
 		return
 	}
+	// long-lived load targets, one typed and one generic object per element
+	// type: every case unmarshals its array into objects that held - and
+	// answered for - the arrays of earlier cases; every other time they are
+	// first initialised in place with a contiguous list 0..m-1 (the one shape an
+	// implementation might special-case), sometimes with the case's own list
+	tg := c16Targets[k.name]
+	if tg == nil {
+		m, g, b := k.emptyTyped()
+		ga, _ := array.NewEmpty(k.zero)
+		tg = &c16Target{msg: m, tget: g, tbase: b, gen: ga}
+		c16Targets[k.name] = tg
+	}
+	tgOK := false
+	pv, stack = try(func() {
+		switch (idx / len(arrKinds)) % 4 {
+		case 0, 2:
+			m := 1 + r.Intn(70)
+			if (idx/len(arrKinds))%4 == 2 {
+				m = 1
+			}
+			dense := make([]int32, m)
+			dv := make([]uint64, m)
+			for i := range dense {
+				dense[i] = int32(i)
+				dv[i] = maskTo(uint64(i)*0x0101010101010101+1, k.size)
+			}
+			if e := tg.gen.Init(dense, k.slice(dv)); e != nil {
+				err = e
+				return
+			}
+			if e := tg.tbase.Init(dense, k.slice(dv)); e != nil {
+				err = e
+				return
+			}
+			tg.gen.Get(0)
+			tg.tget(0)
+			ctx.Count("long_lived_load_target_dense_before_load", 1)
+		case 1:
+			if n > 0 {
+				tg.gen.Init(ixs, k.slice(vals))
+				tg.tbase.Init(ixs, k.slice(vals))
+			}
+		}
+		if err = proto.Unmarshal(data, tg.msg); err != nil {
+			return
+		}
+		if idx%2 == 0 {
+			err = proto.Unmarshal(data, tg.gen)
+		} else {
+			// the other documented way to reuse a message
+			tg.gen.Reset()
+			err = proto.UnmarshalMerge(data, tg.gen)
+		}
+		tgOK = err == nil
+	})
+	if pv != nil || err != nil {
+		viol("unmarshal-into-used-object-failed", map[string]interface{}{"panic": fmt.Sprint(pv), "error": fmt.Sprint(err), "stack": stack})
+		delete(c16Targets, k.name)
+		return
+	}
+	if tgOK {
+		ctx.Count("long_lived_load_target_loaded", 1)
+	}
 	// generic array marshalled and loaded into the typed one
 	tmsg2, tget2, _ := k.emptyTyped()
 	pv, stack = try(func() {
@@ -494,6 +567,10 @@ func runC16(ctx *Ctx, idx int) {
 		{"typed", wrap(get)}, {"raw", rawGet(base)}, {"generic(New)", genGet(gen1)}, {"generic(NewEmpty+Init)", genGet(gen2)},
 		{"typed-after-roundtrip", wrap(tget)}, {"raw-after-roundtrip", rawGet(tbase)}, {"generic-after-roundtrip", genGet(gload)},
 		{"typed-loaded-from-generic", wrap(tget2)},
+	}
+	if tgOK {
+		accs = append(accs, acc{"typed(long-lived object, loaded again)", wrap(tg.tget)}, acc{"raw(long-lived object, loaded again)", rawGet(tg.tbase)},
+			acc{"generic(long-lived object, loaded again)", genGet(tg.gen)}, acc{"raw-of-generic(long-lived object, loaded again)", rawGet(&tg.gen.Base)})
 	}
 	if reused != nil {
 		// (only its answers are compared: re-initialising with an empty list
@@ -668,7 +745,7 @@ func runC16(ctx *Ctx, idx int) {
 func init() {
 	register(&CheckDef{
 		ID: "C16", Level: "exploration",
-		Rule: "case = (array type U16/U32/U64/I16/I32/I64, ascending index set in [0,2^20) - empty, single, dense, holes, sparse with empty 64-bit words, clusters, word boundaries, top of range - and full-range elements); oracle: a Go map compared at every index of the bitmap span (spans <= 2^16) or all present indexes, their neighbours and 10^4 random probes, through the typed accessor, Base.GetBytes, array.New and NewEmpty+Init generic accessors, and after proto round trips into the typed and the generic type (and generic -> typed); re-marshal reproduces the bytes; struct elements and defined (named) integer/array element types through the generic array (same dynamic type and value before and after a round trip); an equal and a descending neighbour at every position of lists of <=16 indexes (4 seeded positions of longer ones) and length mismatches of +1, -1 and a seeded amount are rejected with ErrIndexNotAscending / ErrIndexLen (by identity) and a nil array; a rejected Init called directly leaves a fresh value empty (Cnt, bitmap, offsets, elements) and an array in use byte-identical; non-trivial = at least 2 elements",
+		Rule: "case = (array type U16/U32/U64/I16/I32/I64, ascending index set in [0,2^20) - empty, single, dense, holes, sparse with empty 64-bit words, clusters, word boundaries, top of range - and full-range elements); oracle: a Go map compared at every index of the bitmap span (spans <= 2^16) or all present indexes, their neighbours and 10^4 random probes, through the typed accessor, Base.GetBytes, array.New and NewEmpty+Init generic accessors, and after proto round trips into the typed and the generic type (and generic -> typed); re-marshal reproduces the bytes; struct elements and defined (named) integer/array element types through the generic array (same dynamic type and value before and after a round trip); an equal and a descending neighbour at every position of lists of <=16 indexes (4 seeded positions of longer ones) and length mismatches of +1, -1 and a seeded amount are rejected with ErrIndexNotAscending / ErrIndexLen (by identity) and a nil array; one long-lived typed and one long-lived generic object per element type are the destination of every case's unmarshal (after holding earlier arrays, every other time after an in-place Init with a contiguous list 0..m-1) and are read through all accessors; a rejected Init called directly leaves a fresh value empty (Cnt, bitmap, offsets, elements) and an array in use byte-identical; non-trivial = at least 2 elements",
 		NumCases: func(tier string) int {
 			if tier == "thorough" {
 				return 300000
@@ -678,7 +755,7 @@ func init() {
 		Run:           runC16,
 		MinNontrivial: func(tier string) int { return 500 },
 		Gates: shapeGates("type:U16", "type:U32", "type:U64", "type:I16", "type:I32", "type:I64", "arrays:all_indexes_probed", "arrays:with_empty_words", "arrays:empty", "arrays:single",
-			"arrays:struct_elements", "arrays:defined_element_types", "rejected:ErrIndexNotAscending:equal", "rejected:ErrIndexNotAscending:descending", "rejected:ErrIndexLen", "invalid:every_position_lists", "rejected_init_leaves_fresh_value_empty", "rejected_init_leaves_used_array_untouched", "probes:typed-after-roundtrip", "probes:generic-after-roundtrip"),
+			"arrays:struct_elements", "arrays:defined_element_types", "rejected:ErrIndexNotAscending:equal", "rejected:ErrIndexNotAscending:descending", "rejected:ErrIndexLen", "invalid:every_position_lists", "rejected_init_leaves_fresh_value_empty", "rejected_init_leaves_used_array_untouched", "probes:typed-after-roundtrip", "probes:generic-after-roundtrip", "long_lived_load_target_loaded", "long_lived_load_target_dense_before_load"),
 		Assumptions: []string{"probes stay inside the bitmap span, as the statement says"},
 	})
 }
